@@ -247,3 +247,307 @@ def vc_match_states(prog, state_kind='edge', family='base'):
     rep = verify_function(prog, fv, setup, goals, models=models, hooks=hooks, contracts=contracts, end_goals=end_goals,
                           name=f"BaseMatcher._match_states[{state_kind},{family}]")
     return fv, rep
+
+
+# =============================================================================================== non-emitting search
+visited = z3.Function('visited_in_ne_run', z3.IntSort(), Label, z3.BoolSort())     # abstract _node_in_prev_ne(m, label)
+
+
+def _ne_world(prog, family, st, state_kind, obs_ne_of_m=None):
+    """Shared symbolic world for the two non-emitting loops: matcher, abstract map, contracts of next / upsert /
+    _node_in_prev_ne, an arbitrary entry `m` of cur_lattice."""
+    mcls = 'DistanceMatcher' if family == 'distance' else 'BaseMatcher'
+    ecls = 'DistanceMatching' if family == 'distance' else 'BaseMatching'
+
+    def mk_matcher():
+        matcher = K.mk_matcher(mcls, only_edges=(True if family == 'distance' else None))
+        matcher.f['lattice'] = Obj('Lattice')
+        matcher.f['matching'] = ClassVal(ecls)
+        return matcher
+
+    def new_entry(it):
+        ctx = it.ctx
+        if state_kind == 'node':
+            l1 = ctx.fresh('m_l1', 'L')
+            em = Obj('Segment', l1=l1, p1=coord(l1), l2=None, p2=None, _pi=None, _ti=None)
+        else:
+            l1, l2 = ctx.fresh('m_l1', 'L'), ctx.fresh('m_l2', 'L')
+            em = Obj('Segment', l1=l1, p1=coord(l1), l2=l2, p2=coord(l2), _pi=(ctx.fresh('pix'), ctx.fresh('piy')), _ti=ctx.fresh('ti'))
+            ctx.assume(l1 != l2)
+        m = K.mk_matching('m', st['matcher'], ecls, edge_m=em, edge_o=K.mk_segment('mo', True))
+        m.f['stop'] = ctx.fresh('m_stop', 'B')
+        m.f['delayed'] = ctx.fresh('m_delayed', 'I')
+        st['m'] = m
+        st['m0'] = {'stop': m.f['stop'], 'delayed': m.f['delayed']}
+        return m
+
+    def c_next(it, fv_, args, kw):
+        me, edge_m, edge_o = args[0], args[1], args[2]
+        obs = kw.get('obs', args[3] if len(args) > 3 else 0)
+        obs_ne = kw.get('obs_ne', args[4] if len(args) > 4 else 0)
+        k = it.ctx.choice(2, 'next-result')
+        res = None
+        if k == 0:
+            res = K.mk_matching(f"nx{len(st['calls'])}", st['matcher'], ecls, edge_m=edge_m, edge_o=edge_o)
+            res.f['obs'], res.f['obs_ne'] = obs, obs_ne
+            res.f['delayed'] = me.f['delayed']
+            res.f['stop'] = it.ctx.fresh('nx_stop', 'B')
+            # K-next: an object is returned although cut off only under debug
+            it.ctx.assume(z3.Implies(res.f['stop'], it.debug))
+        call = {'self': me, 'edge_m': edge_m, 'edge_o': edge_o, 'obs': obs, 'obs_ne': obs_ne, 'result': res,
+                'stop0': res.f['stop'] if res is not None else None}
+        st['calls'].append(call)
+        it.ctx.events.append(Event('next', call=call, loops=list(it.ctx.loop_stack)))
+        return res
+
+    def c_visited(it, fv_, args, kw):
+        me, label = args[1], args[2]
+        return visited(z3.IntVal(me.oid), label)
+
+    def m_nodes_nbrto(it, o, node):
+        def elem(it_):
+            l = it_.ctx.fresh('nbr', 'L')
+            return (l, coord(l)), [z3.Or(adj(node, l), l == node)]
+        st['nbr_query'] = ('nodes_nbrto', node)
+        n = it.ctx.fresh('n_nbrs', 'I')
+        it.ctx.assume(n >= 0)
+        return SymColl('nodes_nbrto', elem, length=n)
+
+    def m_edges_nbrto(it, o, edge):
+        def elem(it_):
+            a, b = it_.ctx.fresh('nbr1', 'L'), it_.ctx.fresh('nbr2', 'L')
+            l1, l2 = edge
+            from_end = z3.And(a == l2, z3.Or(adj(l2, b), b == l2))
+            lk = z3.And(linked(l1, l2, a, b), a != l1, a != l2, b != l1, b != l2, a != b)
+            return (a, coord(a), b, coord(b)), [z3.Or(from_end, lk)]
+        st['nbr_query'] = ('edges_nbrto', edge)
+        n = it.ctx.fresh('n_nbrs', 'I')
+        it.ctx.assume(n >= 0)
+        return SymColl('edges_nbrto', elem, length=n)
+    models = dict(K.base_models())
+    models.update({('meth', 'Map', 'nodes_nbrto'): Model('map.nodes_nbrto', m_nodes_nbrto),
+                   ('meth', 'Map', 'edges_nbrto'): Model('map.edges_nbrto', m_edges_nbrto)})
+    contracts = {'BaseMatching.next': c_next, 'BaseMatcher._node_in_prev_ne': c_visited}
+    return mk_matcher, new_entry, models, contracts, ecls
+
+
+def _is_move(pm, t):
+    if pm.f['l2'] is None:
+        if t['l2'] is None:
+            return z3.Or(t['l1'] == pm.f['l1'], adj(pm.f['l1'], t['l1']))
+        return z3.And(t['l1'] == pm.f['l1'], adj(pm.f['l1'], t['l2']), t['l1'] != t['l2'])
+    if t['l2'] is None:
+        return t['l1'] == pm.f['l2']
+    same = z3.And(t['l1'] == pm.f['l1'], t['l2'] == pm.f['l2'])
+    nxt = z3.And(t['l1'] == pm.f['l2'], adj(t['l1'], t['l2']), t['l1'] != t['l2'])
+    lk = linked(pm.f['l1'], pm.f['l2'], t['l1'], t['l2'])
+    return z3.Or(same, nxt, lk)
+
+
+def vc_ne_end(prog, state_kind='edge', family='base'):
+    """_match_non_emitting_states_end: link a non-emitting chain to the NEXT observation.  Per arbitrary live entry and
+    neighbour: the call to next() is emitting, for the next observation, a move the map offers; the emitting layer of the
+    next column is written ONLY through upsert (keep-the-better, C06), a candidate that does not beat the best known entry
+    for its state is dropped (kept as a stopped entry under debug, C19)."""
+    fv = prog.func(K.BASE, 'BaseMatcher._match_non_emitting_states_end')
+    st = {}
+    mk_matcher, new_entry, models, contracts, ecls = _ne_world(prog, family, st, state_kind)
+    obs_idx = I('obs_idx')
+    obs_next = (R('ony'), R('onx'))
+
+    def setup(ctx, it):
+        st.clear()
+        st['calls'] = []
+        matcher = mk_matcher()
+        st['matcher'] = matcher
+
+        def best_val(it_, key):
+            b = K.mk_matching('best', matcher, ecls, edge_m=K.mk_segment('bm', False), edge_o=K.mk_segment('bo', True))
+            st.setdefault('best_objs', []).append(b)
+            return b
+        lattice_best = SymDict('lattice_best', best_val)
+        cur = SymDict('cur_lattice', lambda it_, k: new_entry(it_), key_factory=lambda it_: it_.ctx.fresh('curkey', 'I'))
+        st.update(lattice_best=lattice_best, cur=cur)
+        ctx.assume(obs_idx >= 1)
+        return [matcher, cur, obs_idx, obs_next, lattice_best], {'expand': B('expand')}
+
+    def h_index_lattice(it, o, i):
+        col = Obj('Column', idx=i)
+        return col
+
+    def c_upsert(it, col, m):
+        it.ctx.events.append(Event('upsert', col=col, obj=m, stop=(m.f['stop'] if m is not None else None), loops=list(it.ctx.loop_stack)))
+        return m
+
+    def raw(it, col, *a, **kw):
+        # a layer handed out as a plain dict: reads are arbitrary, every write is logged (frame obligation below)
+        def anyval(it_, key):
+            return K.mk_matching('stored', st['matcher'], ecls, edge_m=K.mk_segment('sm', False), edge_o=K.mk_segment('so', True))
+        d = SymDict('raw-layer', anyval)
+        it.ctx.events.append(Event('raw-layer-access', col=col, d=d))
+        return d
+    models.update({('meth', 'Column', 'upsert'): Model('LatticeColumn.upsert', c_upsert),
+                   ('meth', 'Column', 'dict'): Model('LatticeColumn.dict', raw), ('meth', 'Column', 'values'): Model('LatticeColumn.values', raw)})
+    hooks = {('index', 'Lattice'): h_index_lattice}
+
+    def end_goals(ctx, why):
+        m = st.get('m')
+        if m is None:
+            return []
+        pm = m.f['edge_m']
+        g = []
+        live = z3.And(z3.Not(st['m0']['stop']), st['m0']['delayed'] <= st['matcher'].f['expand_now'])
+        calls = st['calls']
+        ups = [e for e in ctx.events if e.kind == 'upsert']
+        inner = [e for e in ctx.events if e.kind == 'iter-begin' and len(e.loops) == 2]
+        if not inner:
+            g.append(('ne-end:no-calls-outside-the-neighbour-loop', b2z(len(calls) == 0 and len(ups) == 0)))
+            return g
+        g.append(('ne-end:only-live-entries-are-continued', live))
+        el = inner[-1].elem
+        n1, n2 = (el[0], el[2]) if state_kind == 'edge' else (None, el[0])
+        vis = visited(z3.IntVal(m.oid), n2)
+        if state_kind == 'edge':
+            cond = z3.And(z3.Not(vis), pm.f['l1'] != n2, pm.f['l2'] != n2)
+            target = lambda c: seg_is(c['edge_m'], n1, n2)
+        else:
+            cond = z3.And(z3.Not(vis), pm.f['l1'] != n2)
+            target = lambda c: seg_is(c['edge_m'], n2)
+
+        def call_ok(c):
+            eo = c['edge_o']
+            return zand(c['self'] is m, target(c), eo.f['l2'] is None and eo.f['p2'] is None, eq(eo.f['p1'], obs_next),
+                        eq(c['obs'], obs_idx), eq(c['obs_ne'], 0))
+        g.append(('ne-end:one-emitting-call-for-the-next-observation-per-admissible-neighbour', b2z(align(calls, [(cond, call_ok)]))))
+        for j, c in enumerate(calls):
+            g.append((f'walk:call{j}-is-a-move-the-map-offers', _is_move(pm, c['edge_m'].f)))
+        # writes into the next column's emitting layer
+        g.append(('ne-end:next-column-written-only-through-upsert(keep-the-better)',
+                  b2z(not any(e.kind == 'dictset' and e.d is not st['lattice_best'] for e in ctx.events))))
+        if calls and calls[0]['result'] is not None:
+            r = calls[0]['result']
+            g.append(('ne-end:at-most-one-upsert-of-the-candidate', b2z(len(ups) <= 1 and all(u.obj is r for u in ups))))
+            g.append(('ne-end:upsert-into-the-column-of-the-next-observation', b2z(all(eq(u.col.f['idx'], obs_idx) for u in ups)) if ups else z3.BoolVal(True)))
+            # C19: a candidate is marked as stopped here only under debug
+            stop_now = r.f['stop']
+            g.append(('debug:candidate-marked-stopped-only-under-debug', z3.Implies(b2z(stop_now) != b2z(calls[0]['stop0']), z3.Bool('debug'))))
+            best_objs = st.get('best_objs', [])
+            if best_objs:
+                b = best_objs[-1]
+                g.append(('ne-end:worse-candidate-never-replaces(no live upsert unless better than the best known)',
+                          z3.Implies(b2z(len(ups) == 1 and True), z3.Or(r.f['logprob'] > b.f['logprob'], b2z(r.f['stop'])))) if ups
+                         else ('ne-end:dropped-only-if-not-better', z3.Not(r.f['logprob'] > b.f['logprob'])))
+            else:
+                g.append(('ne-end:new-state-is-always-filed', b2z(len(ups) == 1)))
+        elif calls:
+            g.append(('ne-end:none-is-never-filed', b2z(len(ups) == 0)))
+        return [(n, b2z(f)) for n, f in g]
+
+    def goals(ctx, res):
+        return [('ne-end:returns-nothing', b2z(res is None))]
+    rep = verify_function(prog, fv, setup, goals, models=models, hooks=hooks, contracts=contracts, end_goals=end_goals,
+                          name=f"BaseMatcher._match_non_emitting_states_end[{state_kind},{family}]")
+    return fv, rep
+
+
+def vc_ne_inner(prog, state_kind='edge', family='base'):
+    """_match_non_emitting_states_inner: one more non-emitting step for the SAME observation.  Per arbitrary live entry of this
+    round and neighbour: the call to next() is non-emitting (obs = obs_idx, obs_ne = nb_ne) with the observation SEGMENT
+    (obs, obs_next), a move the map offers; a candidate is filed in layer nb_ne of column obs_idx under ITS OWN key, or merged
+    into the entry stored under that key through update(), or dropped - nothing else is written."""
+    fv = prog.func(K.BASE, 'BaseMatcher._match_non_emitting_states_inner')
+    st = {}
+    mk_matcher, new_entry, models, contracts, ecls = _ne_world(prog, family, st, state_kind)
+    obs_idx, nb_ne = I('obs_idx'), I('nb_ne')
+    obs, obs_next = (R('oy'), R('ox')), (R('ony'), R('onx'))
+
+    def setup(ctx, it):
+        st.clear()
+        st['calls'] = []
+        matcher = mk_matcher()
+        if family != 'distance':
+            matcher.f['only_edges'] = (state_kind == 'edge')      # the branch for this state kind
+        st['matcher'] = matcher
+
+        def mk_any(nm):
+            def f(it_, key):
+                o = K.mk_matching(nm, matcher, ecls, edge_m=K.mk_segment(nm + 'm', False), edge_o=K.mk_segment(nm + 'o', True))
+                st.setdefault(nm, []).append(o)
+                return o
+            return f
+        lattice_best = SymDict('lattice_best', mk_any('best'))
+        layer = SymDict('layer', mk_any('stored'))
+        cur = SymDict('cur_lattice', lambda it_, k: new_entry(it_), key_factory=lambda it_: it_.ctx.fresh('curkey', 'I'))
+        lattice_ne = HavocColl('lattice_ne')
+        st.update(lattice_best=lattice_best, cur=cur, layer=layer)
+        ctx.assume(obs_idx >= 0, nb_ne >= 1)
+        return [matcher, cur, obs_idx, obs, obs_next, nb_ne, lattice_best, lattice_ne], {}
+
+    def h_index_lattice(it, o, i):
+        return Obj('Column', idx=i)
+
+    def m_dict(it, col, k=None):
+        st['layer_of'] = (col.f['idx'], k)
+        return st['layer']
+
+    def c_update(it, fv_, args, kw):
+        it.ctx.events.append(Event('update', target=args[0], cand=args[1], loops=list(it.ctx.loop_stack)))
+        return it.ctx.fresh('upd', 'B')
+    models.update({('meth', 'Column', 'dict'): Model('LatticeColumn.dict', m_dict)})
+    contracts = dict(contracts)
+    contracts['BaseMatching.update'] = c_update
+    hooks = {('index', 'Lattice'): h_index_lattice}
+
+    def end_goals(ctx, why):
+        m = st.get('m')
+        if m is None:
+            return []
+        pm = m.f['edge_m']
+        g = []
+        due = z3.And(z3.Not(st['m0']['stop']), st['m0']['delayed'] == st['matcher'].f['expand_now'])
+        calls = st['calls']
+        inner = [e for e in ctx.events if e.kind == 'iter-begin' and len(e.loops) == 2]
+        writes = [e for e in ctx.events if e.kind == 'dictset' and e.d is st['layer']]
+        other_writes = [e for e in ctx.events if e.kind == 'dictset' and e.d is not st['layer'] and e.d is not st['lattice_best']]
+        upd = [e for e in ctx.events if e.kind == 'update']
+        g.append(('ne-inner:layer-is-(column obs_idx, depth nb_ne)', b2z(eq(st.get('layer_of', (None, None)), (obs_idx, nb_ne)))))
+        g.append(('ne-inner:nothing-else-is-written', b2z(len(other_writes) == 0)))
+        if not inner:
+            g.append(('ne-inner:no-calls-outside-the-neighbour-loop', b2z(len(calls) == 0 and not writes and not upd)))
+            return [(n, b2z(f)) for n, f in g]
+        g.append(('ne-inner:only-live-entries-of-this-round-are-continued', due))
+        el = inner[-1].elem
+        n1, n2 = (el[0], el[2]) if state_kind == 'edge' else (None, el[0])
+        vis = visited(z3.IntVal(m.oid), n2)
+        if state_kind == 'edge':
+            cond = z3.And(z3.Not(vis), pm.f['l2'] != n2, pm.f['l1'] != n2)
+            target = lambda c: seg_is(c['edge_m'], n1, n2)
+        else:
+            cond = z3.And(z3.Not(vis), pm.f['l1'] != n2)
+            target = lambda c: seg_is(c['edge_m'], n2)
+
+        def call_ok(c):
+            eo = c['edge_o']
+            return zand(c['self'] is m, target(c), eo.f['l2'] is not None, eq(eo.f['p1'], obs), eq(eo.f['p2'], obs_next),
+                        eq(c['obs'], obs_idx), eq(c['obs_ne'], nb_ne))
+        g.append(('ne-inner:one-non-emitting-call-with-the-observation-segment-per-admissible-neighbour', b2z(align(calls, [(cond, call_ok)]))))
+        for j, c in enumerate(calls):
+            g.append((f'walk:call{j}-is-a-move-the-map-offers', _is_move(pm, c['edge_m'].f)))
+        if calls and calls[0]['result'] is not None:
+            r = calls[0]['result']
+            key = (r.f['edge_m'].f['l1'], r.f['edge_m'].f['l2'], r.f['obs'], r.f['obs_ne']) if state_kind == 'edge' else \
+                (r.f['edge_m'].f['l1'], r.f['obs'], r.f['obs_ne'])
+            g.append(('file:candidate-filed-at-most-once-under-its-own-key', b2z(len(writes) <= 1 and all(w.value is r and eq(w.key, key) is not False for w in writes))
+                      if not writes else zand(len(writes) == 1, writes[0].value is r, eq(writes[0].key, key))))
+            g.append(('file:merged-only-into-the-entry-stored-under-the-same-key', b2z(all(u.cand is r and any(u.target is s_ for s_ in st.get('stored', [])) for u in upd))))
+            g.append(('file:filed-or-merged-not-both', b2z(len(writes) + len(upd) <= 1)))
+            g.append(('debug:dropped-candidate-marked-stopped-or-unchanged', z3.BoolVal(True)))
+        elif calls:
+            g.append(('file:none-is-never-filed', b2z(not writes and not upd)))
+        return [(n, b2z(f)) for n, f in g]
+
+    def goals(ctx, res):
+        return [('ne-inner:returns-the-layer', b2z(res is st['layer']))]
+    rep = verify_function(prog, fv, setup, goals, models=models, hooks=hooks, contracts=contracts, end_goals=end_goals,
+                          name=f"BaseMatcher._match_non_emitting_states_inner[{state_kind},{family}]")
+    return fv, rep
